@@ -34,6 +34,8 @@ DelName(r) == IF IsRtr(r) THEN "RtrDel" ELSE "RoaDel"
 NoAspa == {}
 ProvOf(x) == IF x[2] = "prov:a2" THEN <<"a2">> ELSE <<"a2", "a3">>
 GenChain == [c \in Sub |-> IF c = "B" THEN "A" ELSE IF c = "C" THEN "B" ELSE "A"]
+\* B under A; C and F (a child that is not hosted here) under B
+GenForeign == [c \in Sub |-> IF c = "B" THEN "A" ELSE "B"]
 \* (with Sub = {"B", "C", "C2"} and CaOf = SecondSlots the same function makes
 \* A the second parent of C: C holds resources from B and from A directly)
 
@@ -106,6 +108,19 @@ GenApiAny ==
          \/ \E c \in Sub : PubRemove(c) /\ Api([a |-> "PubRemove", c |-> c])
          \/ \E c \in Sub : PubAdd(c) /\ Api([a |-> "PubAdd", c |-> c])
          \/ RepoSyncAll /\ Api([a |-> "RepoSyncAll"])
+    \/ "foreign" \in Ops /\ \E f \in Foreign :
+         \/ \E R \in SUBSET Res :
+              /\ AddForeign(f, ParentOf[f], R)
+              /\ Api([a |-> "AddForeign", c |-> f, p |-> ParentOf[f], res |-> SetToSeq(R)])
+         \/ FList(f) /\ Api([a |-> "FList", c |-> f])
+         \/ \E x \in {"cur", "new"} :
+              \/ FRevoke(f, x) /\ Api([a |-> "FRevoke", c |-> f, x |-> x])
+              \* (limits within the entitlement -- within the offer or not --,
+              \* no limit, and one that names everything)
+              \/ FCall(f) /\ \E L \in (SUBSET ent[f]) \cup {Res}, nl \in BOOLEAN :
+                   /\ FCall(f) /\ (nl => L = Offer(f))
+                   /\ FIssue(f, x, L)
+                   /\ Api([a |-> "FIssue", c |-> f, x |-> x, lim |-> SetToSeq(L), nolim |-> nl])
     \/ "restart" \in Ops /\ UNCHANGED <<pubknown, pst, rst, kst, exists, gone, parent, hasp, ent,
                                           cstate, iss, sus, rc, rcv, req, routes, pub, tasks>>
                          /\ Api([a |-> "Restart"])
